@@ -232,6 +232,8 @@ def run(prog, chk):
 
     # ---- R11.4 status collection -----------------------------------------------------------------------
     chunk_decode_rule(prog, chk)
+    one_byte_read_rule(prog, chk)
+    unbuffered_descriptor_rule(prog, chk)
     chk.rule("R11.4", "wait_for_pipeline…: each waited stage pushes exactly one status before the next stage is popped; the pipefail "
                       "overwrite is control dependent on return_last_failure_from_pipeline")
     wb = prog.impl_body(WAIT_P)
@@ -374,3 +376,130 @@ def chunk_decode_rule(prog, chk):
 
 def c_has_source_loop(b):
     return bool(cfg_of(b).source_loops())
+
+
+READ_EVENT = "brush_builtins::read::InputReader::read_event"
+
+
+def one_byte_read_rule(prog, chk):
+    """R11.6: `read` consumes exactly one line from a descriptor it shares with other commands. It cannot push bytes back, so it must
+    never ask the descriptor for a byte before the previous one has been looked at by the delimiter test: in the function that pulls
+    input for the builtin every Read::read on the descriptor fills a one-byte buffer, there is at most one such read per call (no read
+    inside a loop, no path from one read to another), and its caller compares every character with the delimiter."""
+    from dataflow import flow_back
+    chk.rule("R11.6", "the read builtin pulls its input one byte per call of read_event (one-byte buffer, no read in a loop, no second read on "
+                      "any path): nothing beyond the delimiter is taken from a shared descriptor")
+    b = prog.impl_body(READ_EVENT)
+    if not chk.anchor("R11.6", READ_EVENT, b):
+        return
+    c = cfg_of(b)
+    d = defs_of(b)
+    reads = [(bb, t) for bb, t in b.calls() if (t.best_callee() or t.callee or "").endswith(("Read>::read", "Read::read", "::read_exact", "::read_to_end", "::read_buf"))
+             and bb in c.reach]
+    if not reads:
+        chk.fail("R11.6", READ_EVENT, "read-call-missing", "no Read::read call found in read_event")
+        return
+    loops = c.source_loops()
+    for bb, t in reads:
+        inloop = any(bb in blks for blks in loops.values())
+        again = [x for x, _ in reads if x != bb and c.path(bb, [x], after=True) is not None]
+        # buffer length
+        one = False
+        why = "?"
+        if len(t.args) >= 2:
+            fl = flow_back(b, d, t.args[1], all_args=True)
+            ranges = [f for f in fl if f.kind == 'agg' and "ops::range::" in (f.node.raw.get("adt") or "")]
+            tys = set()
+            for f in fl:
+                for p in f.path:
+                    if p[0] == 'f' and p[3] == "buffer":
+                        pass
+            # type of the root the slice is made from
+            for f in fl:
+                if f.kind in ('arg', 'unknown') or f.local is not None:
+                    ty = b.local_ty(f.local) if f.local is not None else ""
+                    tys.add(ty)
+            adt = prog.adts.get("brush_builtins::read::InputReader")
+            fty = None
+            if adt:
+                for v in adt["variants"]:
+                    for fld in v["fields"]:
+                        if fld["name"] == "buffer":
+                            fty = fld["ty"]
+            if ranges:
+                r = ranges[0].node
+                names = r.raw.get("fn") or []
+                vals = [const_of(b, d, o) for o in r.ops]
+                kind = r.raw["adt"].rsplit("::", 1)[-1]
+                if kind == "RangeTo" and vals and vals[0] == 1:
+                    one, why = True, "slice [..1]"
+                elif kind == "Range" and len(vals) == 2 and None not in vals and vals[1] - vals[0] == 1:
+                    one, why = True, "slice of constant length 1"
+                else:
+                    why = "slice %s with non-constant or longer bounds" % kind
+            elif fty is not None and fty.replace(" ", "") in ("[u8;1]",):
+                one, why = True, "field buffer: [u8; 1]"
+            else:
+                why = "buffer type %s" % (fty or sorted(tys))
+        if inloop or again or not one:
+            chk.fail("R11.6", READ_EVENT, "read-takes-more-than-one-byte",
+                     "read_event can take more than one byte from the descriptor per call (%s%s%s at line %s): bytes after the delimiter — the next line of a shared "
+                     "descriptor — are consumed before the delimiter test sees them, so `read x; read y` / a following `cat` lose input"
+                     % ("read inside a loop; " if inloop else "", "a second read follows on the same path; " if again else "", "" if one else why, t.line))
+        else:
+            chk.ok("R11.6", "one-byte-read", "single read per call into a one-byte buffer (%s)" % why, function=READ_EVENT)
+    # the caller compares each character with the delimiter
+    callers = prog.callers_of(READ_EVENT, crates={"brush_builtins"})
+    chk.floor("R11.6", "callers of read_event", len(callers), 1)
+    for cb, cbb, ct in callers:
+        cd = defs_of(cb)
+        eq = False
+        for bl in cb.blocks:
+            for st in bl.stmts:
+                if st.kind == 'a' and st.rv.kind == 'bin' and st.rv.op in ("Eq", "Ne"):
+                    og = [o for x in st.rv.ops for o in origins(cb, cd, x, through_ops=True)]
+                    if any("delimiter" in o.field_path() for o in og):
+                        eq = True
+            t2 = bl.term
+            if t2.kind == "call" and (t2.best_callee() or "").endswith(("PartialEq>::eq", "PartialEq>::ne")) and \
+                    any("delimiter" in o.field_path() for a in t2.args for o in origins(cb, cd, a, through_ops=True)):
+                eq = True
+        if eq:
+            chk.ok("R11.6", "delimiter-compared@" + owner(cb.name).rsplit("::", 1)[-1], "characters are compared with the configured delimiter", function=owner(cb.name))
+        else:
+            chk.fail("R11.6", owner(cb.name), "delimiter-test-missing", "%s pulls characters with read_event but never compares them with the delimiter" % owner(cb.name))
+
+
+def const_of(b, d, op):
+    from dataflow import const_value
+    return const_value(b, d, op)
+
+
+def unbuffered_descriptor_rule(prog, chk):
+    """R11.7: what `read` pulls from is the descriptor itself, not a userspace buffer in front of it: <OpenFile as Read>::read must not
+    delegate to a buffering reader (std::io::Stdin holds a process-wide BufReader; BufReader / StdinLock likewise). A buffer in front of
+    a shared descriptor swallows input that belongs to the commands that read the descriptor next."""
+    chk.rule("R11.7", "<OpenFile as Read>::read hands out bytes straight from the descriptor: no arm reads through a buffering reader "
+                      "(std::io::Stdin, StdinLock, BufReader)")
+    b = prog.impl_body("<brush_core::openfiles::OpenFile as std::io::Read>::read")
+    if not chk.anchor("R11.7", "<OpenFile as Read>::read", b):
+        return
+    arms = 0
+    for bb, t in b.calls():
+        cal = t.best_callee() or t.callee or ""
+        if not cal.endswith("Read>::read") and not cal.endswith("::read"):
+            continue
+        arms += 1
+        if any(x in cal for x in ("io::stdio::Stdin", "StdinLock", "BufReader", "io::buffered")):
+            chk.fail("R11.7", b.name, "read-through-buffered-stdin",
+                     "OpenFile::read delegates to %s at line %s: std's Stdin keeps an 8 KiB buffer for the whole process, so a one-byte read by the `read` builtin "
+                     "takes a bufferful from descriptor 0 and later readers of that descriptor (child processes) find it drained — "
+                     "`printf 'a\\nb\\n' | brush -c 'read x; cat'` prints nothing after `a`" % (short_callee(cal), t.line))
+        else:
+            chk.ok("R11.7", "unbuffered:" + short_callee(cal), "reads the descriptor directly", function=b.name)
+    chk.floor("R11.7", "read arms of OpenFile", arms, 3)
+
+
+def short_callee(c):
+    m = c.split(" as ")[0].lstrip("<&") if " as " in c else c
+    return m.rsplit("::", 1)[-1] if "::" in m else m
